@@ -3784,12 +3784,11 @@ prefix_suffix_match(const char *pattern, const char *name, int ignorecase)
 			return *name == '\0';
 
 		case '*':
-			while (*name != '\0') {
+			do {
 				if (prefix_suffix_match(pattern, name,
 					ignorecase))
 					return (1);
-				++name;
-			}
+			} while (*name++ != '\0');
 			return (0);
 		default:
 			if (c != *name) {
